@@ -1,4 +1,4 @@
-CONSTANTS MaxCalls = 3 MaxItems = 1 ServerAnswersOneway = TRUE
+CONSTANTS MaxCalls = 3 MaxItems = 1 ServerAnswersOneway = TRUE ClientMayAbandon = FALSE ClientDrainsAbandoned = FALSE
 SPECIFICATION Spec
 INVARIANTS Correspondence Complete
 CHECK_DEADLOCK FALSE
